@@ -39,7 +39,7 @@ def gen_unit(rng, n_ops, N, sizes):
         elif r < 92:
             lines.append("mq resetwait")
         elif r < 95:
-            lines.append("mq unconf")
+            lines.append("mq avail")     # (MessageQueue_hasUnconfirmedIMessages was removed from the library with fix e71fc44)
         elif r < 98:
             lines.append("mq avail")
         else:
@@ -109,7 +109,7 @@ def run_unit(ck, h, m, rng, quick):
             elif r < 93:
                 lines.append("mq resetwait")
             elif r < 96:
-                lines.append("mq unconf")
+                lines.append("mq avail")     # (MessageQueue_hasUnconfirmedIMessages was removed from the library with fix e71fc44)
             elif r < 99:
                 lines.append("mq avail")
             else:
@@ -355,6 +355,77 @@ def run_trace(ck, rng, quick):
     ck.count("trace_scripts", len(scripts))
 
 
+def run_resume_replies(ck, rng, quick, sig="oracle:kept-until-acknowledged:replies-after-reconnect"):
+    """a connection is lost with events transmitted but unacknowledged; on the next connection the client's first request follows
+    STARTDT at once, so replies and retransmitted events share the window; the client acknowledges, the connection is lost again.
+    Events never acknowledged must be transmitted again (on the second or third connection), in order; acknowledging a REPLY must
+    not remove an event."""
+    h = c07.harness()
+    scripts, meta = [], {}
+    for i in range(40 if quick else 500):
+        k = rng.choice([2, 3, 4, 4, 6, 12])
+        a = rng.range(0, 3)
+        n = rng.range(k, k + 4)           # unacknowledged + waiting events at the first loss
+        b = a + n
+        burst = rng.range(0, k)
+        term = rng.below(2)
+        lines = ["cfg k=%d w=8 handlers=65 burst=%d bsize=6 term=%d lowq=100 highq=20" % (k, burst, term), "start", "connect c0 10.0.0.1:1000", "tick",
+                 "rx c0 " + apci.STARTDT_ACT.hex(), "tick"]
+        for e in range(1, a + 1):
+            lines.append("enq " + c07.ev_asdu(e).hex())
+        for _ in range(a // k + 2):
+            lines += ["tick %d" % (k + 1), "rxs c0"]
+        lines.append("tick 2")
+        for e in range(a + 1, b + 1):
+            lines.append("enq " + c07.ev_asdu(e).hex())
+        lines += ["tick %d" % (n + 1), "peerclose c0", "tick 2"]
+        # second connection: STARTDT and the request arrive together; then one acknowledgement of everything seen; lost again
+        lines += ["connect c1 10.0.0.1:1001", "tick", "rx c1 " + apci.STARTDT_ACT.hex(), "rxi c1 " + c07.IC.hex(), "tick %d" % rng.range(1, 3),
+                  "rxs c1", "tick", "mark-acked", "peerclose c1", "tick 2"]
+        # third connection: drained with acknowledgements
+        lines += ["connect c2 10.0.0.1:1002", "tick", "rx c2 " + apci.STARTDT_ACT.hex(), "tick %d" % (k + 1)]
+        for _ in range(n // k + 3):
+            lines += ["rxs c2", "tick %d" % (k + 1)]
+        sid = "rr%d" % i
+        scripts.append((sid, lines)); meta[sid] = (k, a, b, burst)
+    rc = runner.run_batch(h, scripts, timeout=3600)
+    for sid, lines in scripts:
+        k, a, b, burst = meta[sid]
+        ck.evaluations += 1
+        o = rc.get(sid, dict(out=[], crash=None))
+        if o["crash"]:
+            ck.fail("input", "crash:%s:%s" % (o["crash"]["kind"], o["crash"]["site"]), "server aborted: %s at %s" % (o["crash"]["kind"], o["crash"]["site"]), {"script": lines, "stderr": o["crash"]["text"]})
+            continue
+        per = {"c0": [], "c1": [], "c2": []}
+        acked1 = None
+        for l in o["out"]:
+            w = l.split()
+            if w[0] == "?" and "mark-acked" in l:
+                acked1 = list(per["c1"])       # everything the client had seen on c1 when it acknowledged (sent one tick earlier)
+            if w[0] == "tx" and w[1] in per:
+                for f in apci.split_stream(bytes.fromhex(w[2]))[0]:
+                    x = apci.parse_apdu(f)
+                    if x["kind"] == "I" and x["asdu"][0] == 30:
+                        per[w[1]].append(x["asdu"][6] | x["asdu"][7] << 8)
+        if [e for e in per["c0"] if e <= a] != list(range(1, a + 1)) or acked1 is None:
+            continue
+        bad = None
+        never = [e for e in range(a + 1, b + 1) if e not in per["c1"] and e not in per["c2"]]
+        # an event transmitted on c1 AFTER the acknowledgement was not acknowledged either: it must come again on c2
+        unacked_after = [e for e in range(a + 1, b + 1) if e not in acked1 and e not in per["c2"]]
+        if never:
+            bad = "events %s were never acknowledged (first connection lost with them in flight) and are never transmitted again; second connection carried %s, third %s" % (never, per["c1"], per["c2"])
+        elif unacked_after:
+            bad = "events %s were not acknowledged on the second connection (acknowledged there: %s) and are not transmitted on the third (%s)" % (unacked_after, acked1, per["c2"])
+        elif per["c1"] != sorted(per["c1"]) or per["c2"] != sorted(per["c2"]):
+            bad = "events out of order after reconnection: %s / %s" % (per["c1"], per["c2"])
+        if bad:
+            ck.fail("input", sig, "server event buffer: " + bad + " [k=%d replies=%d]" % (k, burst),
+                    {"script": lines, "observed": [l[:100] for l in o["out"] if l.startswith(("tx c1", "tx c2"))][:10]})
+        ck.nontriv(("resume-replies", k, a, b, burst))
+    ck.count("resume_reply_scripts", len(scripts))
+
+
 def run_capacity(ck, rng, quick):
     """capacity clause at server level: a server created for N event entries retains at least the N most recent equal-size
     events buffered while no client is connected -- in the single-group AND the multiple-groups mode, whatever the size of
@@ -421,6 +492,7 @@ def run(ck):
     run_unit(ck, h, m, rng, quick)
     run_trace(ck, rng, quick)
     run_capacity(ck, rng, quick)
+    run_resume_replies(ck, rng, quick)
     ck.extra["exhaustive"] = False
 
 
